@@ -88,6 +88,27 @@ def check_hook_coverage(P, R, rule, H, root_expr_pred=None):
                             if s.ev['k'] == 'store' and x is s.ev.get('lhs'):
                                 continue
                             reads.append(s)
+            # membership reads: in the hook itself, an object whose children are looked up (directly, or by a function
+            # of the unit it is handed to) is read for "which members does it have": it needs a hook of its own, or an
+            # entry added to / removed from it later is never seen
+            if f is H and 'object' in (t or ''):
+                for s in f.sites():
+                    cs = []
+                    for ex in rules.event_exprs(s.ev):
+                        cs += [x for x in walk(ex) if x.get('k') == 'callref']
+                    if s.ev['k'] == 'call':
+                        cs.append(s.ev)
+                    for c in cs:
+                        if not c.get('args') or not is_var(c['args'][0], v):
+                            continue
+                        if c.get('callee') == 'conf_get_child':
+                            reads.append(s)
+                        else:
+                            g = P.direct_target(f, c['callee']) if c.get('callee') else None
+                            if g is not None and g.unit == H.unit and g.params and any(u.ev.get('callee') == 'conf_get_child' and u.ev['args'] and is_var(u.ev['args'][0], g.params[0]) for u in g.calls()) or \
+                                    (g is not None and g.unit == H.unit and g.params and any(x.get('k') == 'callref' and x.get('callee') == 'conf_get_child' and x.get('args') and is_var(x['args'][0], g.params[0])
+                                                                                             for u in g.sites() for ex in rules.event_exprs(u.ev) for x in walk(ex))):
+                                reads.append(s)
             if not reads:
                 continue
             names = alias.get(v, {v})
